@@ -168,7 +168,7 @@ def nontrivial(rec):
     return len(rec["vals"]) > 1 or any(v["k"] in ("list", "set", "tuple", "dict", "ddict") for v in rec["vals"])
 
 
-CLAUSES = {"C04": {"Sound", "NoError", "OrderFree"}, "C05": {"Tight"}, "C06": {"TDBound"}}
+CLAUSES = {"C04": {"Sound", "NoError", "OrderFree"}, "C05": {"Tight"}, "C06": {"TDBound", "TDOnlyFromRecords"}}
 
 
 def mc_run(tier, env_text):
